@@ -2,7 +2,7 @@
 tie: T-gen (cxx2coq on BucketOpen2N2 / BucketOpenN1 / BucketOpen8) + translator validation against the real code."""
 import os
 
-GEN = ['gen_open2n2.json', 'gen_open2n2_m1.json', 'gen_open2n2_m2.json', 'gen_open2n2_nf.json', 'gen_openn1.json', 'gen_open8.json', 'gen_base.json']
+GEN = ['gen_open2n2_ops.json', 'gen_openn1_ops.json', 'gen_open2n2.json', 'gen_open2n2_m1.json', 'gen_open2n2_m2.json', 'gen_open2n2_nf.json', 'gen_openn1.json', 'gen_open8.json', 'gen_base.json']
 
 def gen_cases(ctx, scale):
     r = ctx.rng
@@ -68,7 +68,7 @@ def gen_table_cases(ctx, scale):
             elif mode == 3: hc = (k * 0x9E3779B97F4A7C15) & (2 ** 64 - 1)
             else: hc = k & 3
             kh.append('%d:%d' % (k, hc))
-        out.append('tblm %s %d %d %s' % (kind, n, cap, ' '.join(kh)))
+        out.append('tblm %s %d %d %s' % (kind, n, cap, ' '.join(with_removals(r, kh, r.choice([0, 0, 25, 50])))))
     # full-load tables: capacity = every slot; fill the table to the very last slot (the last insertions need
     # probes up to bucketCount-1), with one or two home buckets
     for i in range(12 * scale):
@@ -78,7 +78,43 @@ def gen_table_cases(ctx, scale):
         keys = list(range(1, total + 50)); r.shuffle(keys); keys = keys[:m]
         homes = [r.below(2 ** n) for _ in range(r.choice([1, 1, 2]))]
         kh = ['%d:%d' % (k, r.choice(homes) + (r.below(1 << 20) << n)) for k in keys]
+        if i % 3 == 2:   # fill completely, free a few slots anywhere, fill again: the refill must reach the freed buckets
+            rm = ['-' + kh[j].split(':')[0] for j in sorted({r.below(len(kh)) for _ in range(5)})]
+            extra = ['%d:%d' % (100000 + j, r.choice(homes) + (r.below(1 << 20) << n)) for j in range(len(rm) + 1)]
+            kh = kh + rm + extra
         out.append('tblm %s %d %d %s' % (kind, n, cap, ' '.join(kh)))
+    return out
+
+def with_removals(r, kh, pct):
+    """interleave removals of live keys (and later re-insertions of removed ones, same hash) into an insertion list"""
+    if pct == 0: return kh
+    out = []; live = []; dead = []
+    for tok in kh:
+        out.append(tok); live.append(tok)
+        while live and r.below(100) < pct:
+            j = r.below(len(live)); t = live.pop(j); out.append('-' + t.split(':')[0]); dead.append(t)
+        if dead and r.below(100) < pct // 2:
+            t = dead.pop(r.below(len(dead))); out.append(t); live.append(t)
+    return out
+
+def gen_bucket_op_cases(ctx, scale):
+    """AddCrt / Remove / UpdateMaxProbe / Clear sequences on ONE real bucket vs the generated functions (all bookkeeping bytes)"""
+    r = ctx.rng; out = []
+    for i in range(400 * scale):
+        kind = r.choice(['o2', 'n1', 'n1f', 'n1f']); m = 3 if kind == 'o2' else r.choice([7, r.range(1, 7)]); L = r.range(1, 63)
+        cnt = 0; toks = []
+        for _ in range(r.range(1, 40)):
+            c = r.below(10)
+            if c < 4 and cnt < m:
+                hc = r.choice([r.next(), r.below(1 << 20), (r.below(256) << 56) | r.below(1 << 16), 2 ** 64 - 1, 0])
+                toks.append('A:%d:%d:%d' % (hc, r.range(0, 63), r.choice([0, 1, r.below(300), r.below(1 << 20)]))); cnt += 1
+            elif c < 7 and cnt > 0:
+                toks.append('R:%d' % r.below(cnt)); cnt -= 1
+            elif c < 9:
+                toks.append('U:%d' % min(2 ** L - 1, r.choice([0, 1, r.below(8), r.below(300), 254, 255, 256, r.below(1 << 20), r.below(2 ** L), 2 ** L - 1])))
+            elif r.below(4) == 0:
+                toks.append('C:0'); cnt = 0
+        out.append('bops %s %d %d %s' % (kind, m, L, ' '.join(toks)))
     return out
 
 def oracle(ctx, cases, impl_lines):
@@ -103,10 +139,25 @@ def oracle(ctx, cases, impl_lines):
                 if out.strip() != 'skip':
                     if 'found=true' not in out:
                         bad.append((c, out, 'a key inserted into the open-addressing table is not found'))
-                    if 'full=true' in out and len(w) - 4 <= (2 ** int(w[2])) * int(w[3]):
+                    if 'badfull=true' in out:
                         bad.append((c, out, 'insertion reported "Hash table is full" although a bucket still had room'))
                     # a bound > 7 (Open8) / any displaced element makes the case non-trivial
                     if any(int(x.split(':')[2]) > 0 for x in out.split(' ')[0].split(';') if x): ctx.nontrivial.add(c[:200])
+            elif w[0] == 'bops':
+                if out.strip() == 'stuck':
+                    bad.append((c, out, 'generator produced an invalid bucket operation')); continue
+                nums = list(map(int, out.split())); cnt, bound = nums[-2], nums[-1]
+                exp_cnt = 0; mx = 0
+                for t in w[4:]:
+                    if t[0] == 'A': exp_cnt += 1
+                    elif t[0] == 'R': exp_cnt -= 1
+                    elif t[0] == 'U': mx = max(mx, int(t[2:]))
+                    else: exp_cnt = 0; mx = 0
+                if bound < mx:
+                    bad.append((c, out, 'bucket bound %d < largest recorded displacement %d after AddCrt/Remove/UpdateMaxProbe history' % (bound, mx)))
+                if cnt != exp_cnt:
+                    bad.append((c, out, 'bucket count %d != %d items after the history' % (cnt, exp_cnt)))
+                if mx > 255 and any(t[0] in 'AR' for t in w[4:]): ctx.nontrivial.add(c[:200])
             elif w[0] == 'sweep':
                 if out.strip() != 'ok':
                     bad.append((c, out, 'encoder bound below a recorded probe in the exhaustive sweep: ' + out))
@@ -148,13 +199,15 @@ def run(ctx):
     if harness is None:
         ctx.stage('build-harness', False, getattr(ctx, 'last_cxx_error', ''))
         return ctx.finish(rule=RULE)
-    cases = gen_cases(ctx, scale)
+    cases = gen_cases(ctx, scale) + gen_bucket_op_cases(ctx, scale)
+    tcases = gen_table_cases(ctx, scale)
+    path = os.path.join(ctx.build, 'tbl.cases'); open(path, 'w').write('\n'.join(tcases) + '\n')
+    rc0, l0, e0 = ctx.run_lines([harness], path)
+    tcases = [c for c, o in zip(tcases, l0) if o.strip() != 'skip'] if rc0 == 0 else tcases
     have_model = ctx.stages.get('prove', {}).get('ok') and ctx.extract()
+    if not have_model:
+        cases = cases + tcases
     if have_model:
-        tcases = gen_table_cases(ctx, scale)
-        path = os.path.join(ctx.build, 'tbl.cases'); open(path, 'w').write('\n'.join(tcases) + '\n')
-        rc0, l0, e0 = ctx.run_lines([harness], path)
-        tcases = [c for c, o in zip(tcases, l0) if o.strip() != 'skip'] if rc0 == 0 else tcases
         mism_t, _ = ctx.correspond('table-model-vs-HashSet', tcases, [harness], [ctx.model_exe])
         ctx.tie_obligations.append({'name': 'OpenTable.v model == real HashSet<Open2N2<3>|Open8> bucket contents and bounds on %d insertion histories' % len(tcases), 'ok': not mism_t})
         for (i, c, a, b) in mism_t[:2]:
@@ -169,7 +222,7 @@ def run(ctx):
     # the property predicate on the real code (always; this is also the search stage when a proof/tie broke)
     if any(not s['ok'] for s in ctx.stages.values()):
         ctx.log('a stage broke: searching the implementation for a failing input with the thorough generator')
-        cases = cases + gen_cases(ctx, 8)
+        cases = cases + gen_cases(ctx, 8) + gen_bucket_op_cases(ctx, 8) + gen_table_cases(ctx, 4)
     path = os.path.join(ctx.build, 'oracle.cases')
     open(path, 'w').write('\n'.join(cases) + '\n')
     rc, lines, err = ctx.run_lines([harness], path)
@@ -180,7 +233,7 @@ def run(ctx):
         ctx.violation(why, {'case': c, 'impl_output': out, 'cmd': 'echo "%s" | build/C13/harness' % c}, found_input=True)
     for c in cases[::max(1, len(cases) // 6)][:6]:
         ctx.add_sample(c)
-    ctx.coverage['input_distribution'] = {k: sum(1 for c in cases if c.startswith(k)) for k in ('o2', 'n1', 'nx', 'cov', 'tblm', 'sweep')}
+    ctx.coverage['input_distribution'] = {k: sum(1 for c in cases if c.startswith(k)) for k in ('o2', 'n1', 'nx', 'cov', 'tblm', 'sweep', 'bops')}
     return ctx.finish(rule=RULE)
 
 RULE = ('cases = boundary grid (0,1,2^k-1,2^k,2^k+1 up to 2^63) x all byte states (translator validation) + random update '
